@@ -24,9 +24,9 @@ ID = 'C08'
 LEVEL = 'model_checking'
 TECHNIQUE = 'exhaustive exploration of joint outcome sequences of linker + submodels against a reference linker loop and call-order log; differential bare-model law'
 RULE = ('linkers over 0..2/3 scripted submodels x selections (None, all ordered subsets, unknown id) x min_iter<=max_iter<=3 x failures x '
-        'tol in {0.5, 4} x all joint outcome sequences over {c,m} with single deviations to {exactly tol, negative, 0.75 tol}; '
+        'tol in {0.5, 4} (submodels and linker carry an unchecked endogenous variable that never settles) x all joint outcome sequences over {c,m} with single deviations to {exactly tol, negative, 0.75 tol}; '
         'states = distinct (selection, options) configurations, transitions = linker solve_t calls, traces = runs compared with the reference loop; '
-        'non-trivial = at least one iteration executed or a rejection checked')
+        'plus construction over 0..3 submodels with lag/lead lengths and spans that differ in start or in length. non-trivial = at least one iteration executed or a rejection checked')
 ASSUMPTIONS = [
     'scripted steps are exact binary fractions; reference loop written from the statement',
     'linker.solve_t with min_iter > max_iter is not demanded to raise (statement is silent for the linker)',
